@@ -187,7 +187,7 @@ class Summary:
         self.returns = TOP  # ('fresh'|'own', idx) form using ('own', idx) / ('fresh', k, idx) / FRESH / TOP
 
     def sig(self):
-        return (tuple(sorted((i, tuple(sorted(e["root"] for e in evs))) for i, evs in self.all_mutations.items())), self.returns)
+        return (tuple(sorted((i, tuple(sorted((e["root"], tuple(e["path"][1:2])) for e in evs))) for i, evs in self.all_mutations.items())), self.returns)
 
 
 class Ownership:
@@ -234,7 +234,8 @@ class Ownership:
             if idx not in s.mutates:
                 s.mutates[idx] = ev
             lst = s.all_mutations.setdefault(idx, [])
-            if all(e["root"] != ev["root"] for e in lst) and len(lst) < 8:
+            hop = lambda e: (e["root"], tuple(e["path"][1:2]))  # same root cause reached through another first callee: another event
+            if all(hop(e) != hop(ev) for e in lst) and len(lst) < 12:
                 lst.append(ev)
         if A.returns is not None:
             s.returns = A.returns
@@ -519,6 +520,41 @@ class _Analysis:
                             "file": self.f.module.relpath, "line": getattr(node, "lineno", 0), "desc": desc,
                             "path": path, "root": root, "guards": self._param_guards(node)})
 
+    def _attr_store_reaches(self, e: ast.Attribute) -> bool:
+        """some statement storing `<same name>.<same attr>` can execute before this read (CFG reachability)"""
+        stores = [t for t in ast.walk(self.f.node) if isinstance(t, ast.Attribute) and t.attr == e.attr and isinstance(t.ctx, ast.Store)
+                  and isinstance(t.value, ast.Name) and t.value.id == e.value.id]
+        if not stores:
+            return False
+        cfg = self.inf.cfg(self.f)
+
+        def stmt_node(x):
+            while x is not None and cfg.node_of(x) is None:
+                x = getattr(x, "_parent", None)
+            return cfg.node_of(x) if x is not None else None
+        rn = stmt_node(e)
+        if rn is None:
+            return True
+        for t in stores:
+            sn = stmt_node(t)
+            if sn is None or sn is rn or cfg.reaches(sn, rn):
+                return True
+        return False
+
+    def _shallow_copy_names(self):
+        """locals bound (only) from copy(<x>) / copy.copy(<x>): objects whose attributes alias those of x"""
+        if not hasattr(self, "_shallow"):
+            names, other = set(), set()
+            for n in ast.walk(self.f.node):
+                if isinstance(n, ast.Assign) and len(n.targets) == 1 and isinstance(n.targets[0], ast.Name):
+                    v = n.value
+                    if isinstance(v, ast.Call) and norm(v.func) in ("copy", "copy.copy") and len(v.args) == 1:
+                        names.add(n.targets[0].id)
+                    else:
+                        other.add(n.targets[0].id)
+            self._shallow = names - other
+        return self._shallow
+
     def _param_guards(self, node):
         """[(parameter name, required truth value)] from enclosing `if <param>:` / `if not <param>:` tests"""
         out = []
@@ -599,7 +635,16 @@ class _Analysis:
                     return base
                 return base
             if base[0] == "fresh":
-                return base if base[2] is None else TOP
+                if base[2] is None:
+                    return base
+                # a shallow copy (`copy(p)`, one fresh layer) shares its attribute values with p — unless this function
+                # rebinds that attribute on the copy somewhere (then what is read may be the new value: unknown)
+                if base[1] == 1 and isinstance(e.value, ast.Name) and isinstance(e.ctx, ast.Load):
+                    rebinding = self._attr_store_reaches(e)
+                    shallow = self._shallow_copy_names()
+                    if not rebinding and e.value.id in shallow:
+                        return own(base[2])
+                return TOP
             if base[0] == "mix":
                 return base
             return TOP
